@@ -107,7 +107,7 @@ def r1_lex_range(c, facts):
     # who may call TokenList::push
     callers = sorted({fn.qname for fn in facts.fns.values() if fn.mir and P.call_blocks(fn, 'TokenList::push')})
     allowed = {'oal_syntax::lexer::tokenize', 'oal_model::grammar::SyntaxTree::detach'}
-    extra = [q for q in callers if re.sub(r'::\{closure#\d+\}', '', q) not in allowed]
+    extra = [q for q in callers if not facts.reached_only_through(facts.fn(q) or facts.by_qname[q][0], allowed)]
     if not extra and callers:
         c.ok(R, {'TokenList::push callers': callers})
     else:
@@ -293,10 +293,13 @@ def r3_hull(c, facts):
             for s in blk['stmts']:
                 if s['s'] == 'assign' and s['rv']['r'] == 'aggr':
                     if s['rv'].get('adt', '').endswith('SyntaxTrunk') and s['rv']['variant'] == 'Leaf':
-                        leaf.append(re.sub(r'::\{closure#\d+\}', '', fn.qname))
+                        leaf.append(fn)
                     if s['rv'].get('adt', '').endswith('ParserMatch') and s['rv']['variant'] == 'Token':
                         tok.append(re.sub(r'::\{closure#\d+\}', '', fn.qname))
-    if set(leaf) <= {'oal_model::grammar::Context::compose_node', 'oal_model::grammar::SyntaxTree::detach'} and leaf:
+    LEAF_OK = {'oal_model::grammar::Context::compose_node', 'oal_model::grammar::SyntaxTree::detach'}
+    leaf_bad = [f2 for f2 in leaf if not facts.reached_only_through(f2, LEAF_OK)]
+    leaf = [re.sub(r'::\{closure#\d+\}', '', f2.qname) for f2 in (leaf_bad or leaf)]
+    if leaf and not leaf_bad:
         c.ok(R, {'SyntaxTrunk::Leaf constructed in': sorted(set(leaf))})
     else:
         c.bad(R, 'leaf-constructed-in:%s' % ','.join(sorted(set(leaf))), 'leaves are constructed in %s' % sorted(set(leaf)))
